@@ -468,7 +468,7 @@ func init() {
 			if idx%stride == 0 && idx/stride < c19.nChurn {
 				return c19churn(idx / stride)
 			}
-			if idx%stride == stride/2 || idx%stride == stride/4 || idx%stride == 3*stride/4 {
+			if m := idx % stride; m > 0 && m%(stride/8) == 0 {
 				return c19stopStorm(idx)
 			}
 			return c19ending(idx)
